@@ -306,6 +306,12 @@ impl VirtualSign<'_> {
 
     /// Handles `DataChunksSent` messages.
     fn data_chunks_sent<'a>(&mut self, chunks: ChunkCount) -> Option<Message<'a>> {
+        // The chunk count is unaddressed, so on a shared bus every sign sees it; it only concerns a sign
+        // that is currently receiving data.
+        if self.state != State::ConfigInProgress && self.state != State::PixelsInProgress {
+            return None;
+        }
+
         if ChunkCount(self.data_chunks) == chunks {
             match self.state {
                 State::ConfigInProgress => self.state = State::ConfigReceived,
